@@ -152,6 +152,27 @@ def entries():
         return args, lambda a: (lambda m: (m.fit(a['X']), m.to_dict())[1])(GaussianMultivariate(distribution=a['distribution']))
     E['GaussianMultivariate.fit'] = (('dataframe', 'ndarray', 'ro-ndarray'), g_fit)
 
+    def g_fit_int(cont):
+        # a table with integer-typed columns (counts, ages): the caller's frame keeps its dtypes
+        from copulas.multivariate import GaussianMultivariate
+        from copulas.univariate import GaussianUnivariate
+        df = B.mv_data('A', 3).copy()
+        df['a'] = (df['a'] * 10).round().astype('int64')
+        df['c'] = (df['c'] * 4).round().astype('int32')
+        X = df if cont == 'dataframe' else _wrap(np.rint(df.to_numpy() * 3).astype(np.int64), cont)
+        args = {'X': X}
+        return args, lambda a: (lambda m: (m.fit(a['X']), m.to_dict())[1])(GaussianMultivariate(distribution=GaussianUnivariate))
+    E['GaussianMultivariate.fit(integer columns)'] = (('dataframe', 'ndarray'), g_fit_int)
+
+    def kde_weights_fit(cont):
+        # the array of weights handed to the constructor is the caller's as well
+        from copulas.univariate import GaussianKDE
+        x = B.uni_data('A')
+        w = np.linspace(0.5, 3.0, len(x))
+        args = {'X': _wrap(x, cont), 'weights': w}
+        return args, lambda a: (lambda m: (m.fit(a['X']), m.probability_density(np.linspace(0.0, 12.0, 7)), m.to_dict())[1:])(GaussianKDE(weights=a['weights']))
+    E['GaussianKDE(weights).fit'] = (('ndarray', 'series'), kde_weights_fit)
+
     def g_fit_fallback(cont):
         # a per-column configuration in which two of the configured distributions cannot be fitted (the Gaussian fallback runs)
         from copulas.multivariate import GaussianMultivariate
